@@ -32,6 +32,15 @@ func genUniverse(r *common.Rand, size, maxDepth int) []enc.Name {
 	u := []enc.Name{{}}
 	seen := map[string]bool{"/": true}
 	width := r.Range(2, len(compPool))
+	pool := compPool
+	if r.Chance(1, 4) {
+		// a twin of the component "a" (slot 0) that differs in its TLV type only, by a multiple of 256 or
+		// beyond 16 bits: a FIB keyed by a narrowed or packed type conflates the two prefixes while the RIB
+		// (which compares components) keeps them apart
+		pool = append([]enc.Component(nil), compPool...)
+		typ := common.Pick(r, []uint64{264, 8 + 4096, 8 + 65280, 8 + 1<<32})
+		pool[1+r.Intn(width-1)] = enc.Component{Typ: enc.TLNum(typ), Val: []byte("a")}
+	}
 	for tries := 0; len(u) < size && tries < size*20; tries++ {
 		var base enc.Name
 		if r.Chance(2, 3) {
@@ -42,7 +51,7 @@ func genUniverse(r *common.Rand, size, maxDepth int) []enc.Name {
 		if len(base) >= maxDepth {
 			continue
 		}
-		n := append(base.Clone(), compPool[r.Intn(width)])
+		n := append(base.Clone(), pool[r.Intn(width)])
 		k := common.NameText(n)
 		if seen[k] {
 			continue
